@@ -2,6 +2,7 @@ import Driver.Common
 import Logrange.Model.LineReader
 import Logrange.Model.ScanWorker
 import Logrange.Model.Descs
+import Logrange.Model.ScanSync
 import Logrange.Generated.C17
 /-! Model driver for C17 (collector: line reader, parser offsets, scanner worker LTS, mergeDescs). Requests:
 
@@ -11,6 +12,12 @@ import Logrange.Generated.C17
   Answer: `<hex line | eof>* closed:<pending hex> pos=<n>`.
 * `sw <recsPerEvent> <0|1|code> <start> <label>*` — the worker LTS; labels `step r<hex> eof err send conf set wake
   stop cancel persist fpersist`. Answer: the observable fields of the final state.
+* `merge2 <nOld> (<id> <offset> <size> <missed01>)* <nNew> (<id> <offset> <size> <restat|->)*` — `mergeDescs` with the
+  one-scan grace as the code has it (regenerated `mergeKeepsMissedOneScan`); answers `id:offset:size:kept:missed` for the
+  ids of the new scan, then for the old descriptors kept although the scan did not find them.
+* `sync <r|s|m|o|c>*` — the scan / merge / open / check system of `Model/ScanSync.lean` from a fresh session (`init`) with
+  the id check as the code has it (regenerated `workerOpenChecksFileId`); labels replace, scan, merge, open, check; answers
+  `cur=<inode> hit=<01> workers=<key>:<opened|->:<offset0>,…` (descs then retired).
 * `merge <nOld> (<id> <offset> <size>)* <nNew> (<id> <offset> <size> <restat|->)*` — `mergeDescs`; `restat` is what a
   second stat of the file answers (`-` = it fails or yields another id); answer per new descriptor
   `<id>:<offset>:<size>:<kept 0|1>`.
@@ -65,7 +72,15 @@ def parseDescs : Nat → List String → List Desc × List String
   | 0, r => ([], r)
   | n+1, id :: off :: sz :: r =>
     let (ds, r') := parseDescs n r
-    (⟨unhex id, off.toNat!, sz.toNat!⟩ :: ds, r')
+    (⟨unhex id, off.toNat!, sz.toNat!, false⟩ :: ds, r')
+  | _, r => ([], r)
+
+/-- old descriptors with their `missed` flag (request `merge2`) -/
+def parseDescsM : Nat → List String → List Desc × List String
+  | 0, r => ([], r)
+  | n+1, id :: off :: sz :: ms :: r =>
+    let (ds, r') := parseDescsM n r
+    (⟨unhex id, off.toNat!, sz.toNat!, ms == "1"⟩ :: ds, r')
   | _, r => ([], r)
 
 /-- new descriptors carry what a second stat of the file would answer (`-` = it fails / another id) -/
@@ -73,7 +88,7 @@ def parseNewDescs : Nat → List String → List (Desc × Option Nat) × List St
   | 0, r => ([], r)
   | n+1, id :: off :: sz :: rs :: r =>
     let (ds, r') := parseNewDescs n r
-    ((⟨unhex id, off.toNat!, sz.toNat!⟩, rs.toNat?) :: ds, r')
+    ((⟨unhex id, off.toNat!, sz.toNat!, false⟩, rs.toNat?) :: ds, r')
   | _, r => ([], r)
 
 def step (_ : Unit) (toks : List String) : Unit × String :=
@@ -91,6 +106,24 @@ def step (_ : Unit) (toks : List String) : Unit × String :=
     | nNew :: r2 =>
       let (new, _) := parseNewDescs nNew.toNat! r2
       let outs := (mergeDescs Logrange.Generated.C17.mergeRestatsAfterOffset old new).map (fun (d, k) => s!"{hex d.id}:{d.offset}:{d.lastSeenSize}:{b01 k}")
+      ((), if outs.isEmpty then "-" else " ".intercalate outs)
+    | [] => ((), "bad-op")
+  | "sync" :: labels =>
+    let ls : List Logrange.ScanSync.L := labels.filterMap (fun l =>
+      if l == "r" then some .replace else if l == "s" then some .scan else if l == "m" then some .merge
+      else if l == "o" then some .open else if l == "c" then some .check else none)
+    let w := Logrange.ScanSync.run ⟨Logrange.Generated.C17.workerOpenChecksFileId⟩ Logrange.ScanSync.init ls
+    let showD := fun (d : Logrange.ScanSync.D) =>
+      s!"{d.key}:{match d.opened with | some o => toString o | none => "-"}:{d.offset0}"
+    let ws := (Logrange.ScanSync.workers w).map showD
+    ((), s!"cur={w.cur} hit={b01 w.hit} workers={",".intercalate ws}")
+  | "merge2" :: nOld :: rest =>
+    let (old, r1) := parseDescsM nOld.toNat! rest
+    match r1 with
+    | nNew :: r2 =>
+      let (new, _) := parseNewDescs nNew.toNat! r2
+      let outs := (mergeDescs Logrange.Generated.C17.mergeRestatsAfterOffset old new Logrange.Generated.C17.mergeKeepsMissedOneScan).map
+        (fun (d, k) => s!"{hex d.id}:{d.offset}:{d.lastSeenSize}:{b01 k}:{b01 d.missed}")
       ((), if outs.isEmpty then "-" else " ".intercalate outs)
     | [] => ((), "bad-op")
   | _ => ((), "bad-op")
